@@ -8,12 +8,13 @@ SEPS = [' ', '', ':', '\n', '\t', ', ', '-']
 
 @harness(labels=['accepted=>in-range', 'rejected=>out-of-range', 'length', 'status', 'data<128',
                  'layout', 'roundtrip-eq', 'roundtrip-attrs', 'time-identity', 'bin', 'from-bin',
-                 'from-tuple', 'ctor'])
-def codec_rt(cx, type):
+                 'from-tuple', 'ctor', 'encoding-is-a-fresh-value'])
+def codec_rt(cx, type, time_kind='opaque'):
     import mido
     status, length, attrs = MSG[type]
     vals = {a: cx.int(a, -WIDE, WIDE) for a in attrs}
-    t = cx.opaque('time')
+    # time: an opaque token (any int/float object) or a symbolic integer of either sign
+    t = cx.opaque('time') if time_kind == 'opaque' else cx.int('time', -WIDE, WIDE)
     ok = cx.And(*[in_range(cx, a, vals[a]) for a in attrs])
     msg, exc = cx.raises(lambda: mido.Message(type, time=t, **vals), ValueError, label='ctor')
     if exc is not None:
@@ -32,7 +33,15 @@ def codec_rt(cx, type):
     cx.check(m2 == msg, 'roundtrip-eq')            # the real __eq__
     cx.check(cx.And(m2.type == type, set(vars(m2)) == set(attrs) | {'type', 'time'},
                     *[cx.eq(getattr(m2, a), vals[a]) for a in attrs]), 'roundtrip-attrs')
-    cx.check(m2.time == t and msg.time == t, 'time-identity')       # (for the opaque token == is identity)
+    cx.check(cx.And(cx.eq(m2.time, t), cx.eq(msg.time, t)), 'time-identity')   # (for the opaque token == is identity)
+    # a caller that changes a returned encoding must not change what is encoded next (here or elsewhere)
+    b.append(0x55)
+    b[0] = 0
+    fresh = msg.bytes()
+    other = mido.Message(type, **{a: vals[a] for a in attrs}).bytes()
+    cx.check(len(fresh) == length and cx.eq(fresh[0], status + chan) and len(other) == length and
+             cx.eq(list(other), list(fresh)), 'encoding-is-a-fresh-value')
+    b = fresh
     mb = msg.bin()
     cx.check(cx.eq(list(mb), b), 'bin')
     cx.check(mido.Message.from_bytes(mb, time=t) == msg, 'from-bin')
@@ -98,7 +107,7 @@ BOUNDS = {
     'quick': 'all 17 non-sysex types with every value attribute symbolic in [-2^40, 2^40] (covers the whole '
              '1.33M valid-message space and the reject region); sysex payload length 0..8 with every item '
              'symbolic in [-2^40, 2^40]; hex()/from_hex for every type (sysex L<=4) x 8 separator choices; '
-             'time is an opaque token (any int/float object)',
+             'time is an opaque token (any int/float object) and, separately, a symbolic integer over +-2^40; a returned encoding is mutated by the caller before the next one is taken',
     'thorough': 'as quick, sysex payload lengths 0..64 and 127,128,129,255,256,512 (every item symbolic over +-2^40), hex sysex L<=32',
 }
 OUTSIDE = 'sysex payloads longer than the stated length; float-valued attributes (C03); two-digit hex ' \
@@ -115,6 +124,7 @@ def JOBS(tier):
     jobs = []
     for t in NONSYSEX:
         jobs.append((codec_rt, {'type': t}, {}))
+        jobs.append((codec_rt, {'type': t, 'time_kind': 'int'}, {}))
     lens = list(range(0, 9)) if tier == 'quick' else list(range(0, 65)) + [127, 128, 129, 255, 256, 512]
     for L in lens:
         jobs.append((codec_rt_sysex, {'L': L}, {'cost': L}))
